@@ -179,6 +179,9 @@ def proc_target(spec, conn):
     if spec.get('slow_ms'):
         conn.send('running')
         time.sleep(spec['slow_ms'] / 1000.0)
+    if spec.get('linger_ms'):
+        # the child stays alive for a while after its outcome has been sent (an exit finalizer, like a slow atexit hook)
+        multiprocessing.util.Finalize(None, time.sleep, args=(spec['linger_ms'] / 1000.0,), exitpriority=100)
     if spec['kill'] != 'none':
         if spec['phase'] == 'during':
             conn.send('running')
@@ -196,6 +199,29 @@ def _canon(kind, v):
 
 
 def process_case(spec):
+    import os
+
+    delay = spec.get('reap_delay_ms', 0)
+    if not delay:
+        return _process_case(spec)
+    # schedule perturbation: the thread that reaps the child is descheduled for a while right after the system call (before it
+    # has stored the status), the way a loaded machine does it now and then
+    real_waitpid = os.waitpid
+
+    def slow_waitpid(pid, options):
+        r = real_waitpid(pid, options)
+        if r[0] != 0:
+            time.sleep(delay / 1000.0)
+        return r
+
+    os.waitpid = slow_waitpid
+    try:
+        return _process_case(spec)
+    finally:
+        os.waitpid = real_waitpid
+
+
+def _process_case(spec):
     import os
     import signal
     import threading
@@ -235,6 +261,30 @@ def process_case(spec):
             res['running'] = running
             if kill != 'none' and spec['phase'] == 'during':
                 res['handshake_done'] = True
+    if spec.get('linger_ms') and kill == 'none':
+        # wait()/as_completed() first; the moment they say "done", the other accessors must agree
+        t0 = time.monotonic()
+        if spec.get('linger_first') == 'as_completed':
+            got = []
+            try:
+                for x in mmp.as_completed([p], timeout=20):
+                    got.append(x)
+            except Exception:
+                pass
+            said_done = got == [p]
+        else:
+            d, nd = mmp.wait([p], timeout=20)
+            said_done = p in d
+        probe = {'said_done': said_done, 'after_s': time.monotonic() - t0}
+        if said_done:
+            t1 = time.monotonic()
+            probe['done_now'] = p.done()
+            probe['exitcode_now'] = p.exitcode
+            while not (p.done() and p.exitcode is not None) and time.monotonic() - t1 < 1.5:
+                time.sleep(0.01)
+            probe['agree_after_s'] = time.monotonic() - t1
+            probe['agreed'] = bool(p.done() and p.exitcode is not None)
+        res['linger_probe'] = probe
     if kill != 'none':
         if spec['phase'] in ('during', 'after_result') and not res.get('handshake_done'):
             if parent_conn.poll(20):
@@ -385,11 +435,15 @@ def log_case(spec):
         except BaseException as e:
             out = ('raised', type(e).__name__)
         want = {'return': ('value', 'ok'), 'raise': ('raised', 'ValueError'), 'exit_n': ('exit', 3)}[spec['ending']]
+        import logging
+
+        # result()/join() is the only point at which a parent can know that its child is done: how many records had been handled then
+        handled = [len(h.records) for h in logging.getLogger().handlers if hasattr(h, 'records') and hasattr(h, 'slow_ms')]
         if out != want:
             return {'error': ('wrong_ending', f'result() gave {out}, expected {want}')}
         if p.exitcode is None:
             return {'error': ('no_exitcode', 'exitcode is None after result() returned')}
-        return {}
+        return {'handled_at_return': handled[0] if handled else None}
     if mode == 'servlet':
         from mpservice.mpserver import ProcessServlet, Server
 
